@@ -16,6 +16,7 @@ RULE = (
     "(sample, point) with the documented strict inequalities, checks the ray angle, capped <=> 100 iterations and UserWarning, the precision of every "
     "non-capped point, the point sequence against arange, the OR keep/drop rule (unaltered) and both closing sequences. Non-trivial = at least one non-capped ray; "
     "distinct = (sample seed, method, alpha, deg_step, allowed_error, thetas)."
+    ' Also: variables of very different magnitudes (units), sample memory layouts.'
 )
 ASSUMPTIONS = [
     "guarded probes and_ray / or_ray (VIROCON_VERIF=1) locate the per-ray search result; the verdict is recomputed from the sample and the point",
